@@ -119,7 +119,7 @@ def _reachable_bodies(fn, funcs):
 
 
 def _failure_flags(add, bt, find_func, ShapeError):
-    """(7) the in-process loop: is a failing backtest caught per strategy; (8) the pooled branches: are the tasks waited for"""
+    """(7) the in-process loop: is a failing backtest caught per strategy; (8), (9) the two pooled branches: are the tasks waited for"""
     funcs = _same_file_functions(bt)
     run = find_func(bt, "run", cls="BacktestManager")
     bodies = _reachable_bodies(run, funcs)
@@ -127,6 +127,17 @@ def _failure_flags(add, bt, find_func, ShapeError):
     def is_entry(call):
         return _callee(call) in ENTRY
 
+    first_error = []
+    try:
+        _in_process_flag(add, bodies, funcs, is_entry, ShapeError)
+    except Exception as e:  # noqa: BLE001   (the pooled flags below are still extracted; re-raised at the end)
+        first_error.append(e)
+    _pool_flags(add, bodies, funcs, ShapeError)
+    if first_error:
+        raise first_error[0]
+
+
+def _in_process_flag(add, bodies, funcs, is_entry, ShapeError):
     # ---- (7) `for strategy in self.strategies:` whose body runs a backtest itself (a call of an ENTRY function, directly or in a
     #      function of this file called from the body) — the pooled loops only hand the function to apply_async
     loops = []
@@ -169,7 +180,10 @@ def _failure_flags(add, bt, find_func, ShapeError):
         "BacktestManager.run, in-process loop: the call that runs a backtest sits in a `try` whose handlers catch every Exception and "
         "neither raise, return nor break (false: a failing backtest ends the loop, the strategies after it never run)")
 
-    # ---- (8) every `with Pool(…) as pool:` block: the results of apply_async are collected inside the block, with `.wait()` (or
+
+
+def _pool_flags(add, bodies, funcs, ShapeError):
+    # ---- (8), (9) every `with Pool(…) as pool:` block: the results of apply_async are collected inside the block, with `.wait()` (or
     #      pool.close() + pool.join()); a `.get()` that is not inside a catching `try` re-raises the task's exception there,
     #      and leaving the block terminates the workers
     blocks = []
@@ -179,13 +193,21 @@ def _failure_flags(add, bt, find_func, ShapeError):
                 blocks.append((name, n))
     if not blocks:
         raise ShapeError("BacktestManager.run: no `with Pool(…)` block found")
-    waits_all = True
+    # which branch a block belongs to is read off the function it hands to apply_async: `_start_with_global_data` (data inherited by
+    # fork) or `_start_with_param_data` (data pickled per task: the Windows branch)
+    BRANCH = {"_start_with_global_data": "fork", "_start_with_param_data": "args"}
+    waits = {}
     for name, blk in blocks:
         inside = [x for st in blk.body for x in ast.walk(st)]
-        submitted = {t.id for n in inside if isinstance(n, ast.Assign) and isinstance(n.value, ast.Call) and _callee(n.value) == "apply_async"
-                     for t in n.targets if isinstance(t, ast.Name)}
+        submits = [n for n in inside if isinstance(n, ast.Assign) and isinstance(n.value, ast.Call) and _callee(n.value) == "apply_async"]
+        submitted = {t.id for n in submits for t in n.targets if isinstance(t, ast.Name)}
         if not submitted:
             raise ShapeError(f"{name}: a `with Pool` block without `<name> = pool.apply_async(…)`")
+        tasks_of = {getattr(n.value.args[0], "id", getattr(n.value.args[0], "attr", None)) if n.value.args else
+                    next((getattr(k.value, "id", None) for k in n.value.keywords if k.arg == "func"), None) for n in submits}
+        if len(tasks_of) != 1 or not tasks_of <= set(BRANCH):
+            raise ShapeError(f"{name}: a `with Pool` block whose apply_async does not name _start_with_global_data / _start_with_param_data: {sorted(map(str, tasks_of))}")
+        branch = BRANCH[tasks_of.pop()]
         lists = {n.func.value.id for n in inside if isinstance(n, ast.Call) and _callee(n) == "append" and isinstance(n.func, ast.Attribute)
                  and isinstance(n.func.value, ast.Name) and len(n.args) == 1 and getattr(n.args[0], "id", None) in submitted}
         itervars = set()
@@ -199,17 +221,21 @@ def _failure_flags(add, bt, find_func, ShapeError):
         def on_task(call, attr):
             return isinstance(call.func, ast.Attribute) and call.func.attr == attr and getattr(call.func.value, "id", None) in handles
         pool_names = {i.optional_vars.id for i in blk.items if isinstance(i.optional_vars, ast.Name)}
-        waited = any(isinstance(n, ast.Call) and on_task(n, "wait") for n in inside) or             any(isinstance(n, ast.Call) and isinstance(n.func, ast.Attribute) and n.func.attr == "join"
+        waited = any(isinstance(n, ast.Call) and on_task(n, "wait") for n in inside) or \
+            any(isinstance(n, ast.Call) and isinstance(n.func, ast.Attribute) and n.func.attr == "join"
                 and getattr(n.func.value, "id", None) in pool_names for n in inside)
         gets = _failure_points(blk.body, lambda c: on_task(c, "get"), funcs, 0)
         gets = [(p, g) for p, g in gets if isinstance(p, ast.Call)]
         if not waited and not gets:
             raise ShapeError(f"{name}: a `with Pool` block that neither waits for its tasks (.wait() / pool.join()) nor fetches them (.get())")
-        if any(not g for _, g in gets):
-            waits_all = False
-    add("managerPoolWaitsForTasks", "Bool", "true" if waits_all else "false",
-        "BacktestManager.run, pooled branches: every `with Pool` block waits for all its tasks (.wait() / join) and fetches none with an "
-        "unguarded .get() (false: the first failing task re-raises inside the block, whose exit terminates the other workers)")
+        waits[branch] = waits.get(branch, True) and all(g for _, g in gets)
+    if set(waits) != {"fork", "args"}:
+        raise ShapeError(f"BacktestManager.run: expected a `with Pool` block for the forked branch and one for the Windows branch, found {sorted(waits)}")
+    for branch, lean, what in (("fork", "managerForkPoolWaitsForTasks", "forked pool (_start_with_global_data)"),
+                               ("args", "managerArgsPoolWaitsForTasks", "pool with the data as a task argument (_start_with_param_data, Windows)")):
+        add(lean, "Bool", "true" if waits[branch] else "false",
+            f"BacktestManager.run, {what}: the `with Pool` block waits for all its tasks (.wait() / join) and fetches none with an "
+            "unguarded .get() (false: the first failing task re-raises inside the block, whose exit terminates the other workers)")
 
 
 def _is_deepcopy_of(call, pred):
@@ -364,7 +390,7 @@ def _copy_flags(add, parse, find_func, const_int, rat_of, ShapeError, module_ass
 
 
 def register(add, parse, find_func, const_int, rat_of, ShapeError, module_assign):
-    """the copy flags (1)-(6), then the failure flags (7)-(8); each group is extracted even if the other one does not find its shape
+    """the copy flags (1)-(6), then the failure flags (7)-(9); each group is extracted even if the other one does not find its shape
     (the first ShapeError is re-raised at the end: the file is then STALE for the constants that are missing)"""
     errors, late = [], []
     try:
